@@ -41,6 +41,12 @@ let dsg_ x = match lst x with
 let assign_ x = list_ (pair_ n_ n_) x
 let w_assign s = w_list (w_pair w_n w_n) s
 
+let var_ x = match lst x with
+  | [A "sel"; c; opts] -> VSel (n_ c, list_ n_ opts)
+  | [A "dv"; n; d] -> VDv (n_ n, dom_ d)
+  | _ -> failwith "var"
+let kind_ x = match atom x with "full" -> Full | "instonly" -> InstOnly | s -> failwith ("enc_kind " ^ s)
+
 let dispatch (cmd : string) (args : sx list) : sx =
   match cmd, args with
   | "valid_idx_rows", [t; p; rows] ->
@@ -62,6 +68,13 @@ let dispatch (cmd : string) (args : sx list) : sx =
   | "enum_adm", [g] ->
       let g = dsg_ g in
       w_opt (w_list (fun s -> L [w_assign s; w_opt (w_list w_n) (inst_nodes g s)])) (enum_adm g)
+  | "rows_of", [g; e] -> w_opt (w_list (w_list w_z)) (rows_of (dsg_ g) (list_ var_ e))
+  | "enc_ok", [g; e] -> w_opt w_bool (enc_ok (dsg_ g) (list_ var_ e))
+  | "n_declared", [e] -> w_n (n_declared (list_ var_ e))
+  | "decode_witness", [g; e; k; x; x'; act; inst; dvv] ->
+      w_opt (w_opt w_assign)
+        (decode_witness (dsg_ g) (list_ var_ e) (kind_ k) (list_ bigq_ x) (list_ bigq_ x') (list_ bool_ act)
+           (list_ n_ inst) (list_ (pair_ n_ bigq_) dvv))
   | _ -> Dispatch2.dispatch cmd args
 
 let () =
